@@ -650,6 +650,9 @@ func (e *Env) evalCall(x *Call) *Val {
 			al = e.old.get(u, "ALLOC")
 		}
 		return boolVal("(< (obase " + arg(0).E() + ") " + al + ")")
+	case "live":
+		// live(p): p points into an object that exists in the current state (allocated before now)
+		return boolVal("(< (obase " + arg(0).E() + ") " + e.st.get(u, "ALLOC") + ")")
 	case "fresh":
 		return boolVal("(>= (obase " + arg(0).E() + ") " + e.old.get(u, "ALLOC") + ")")
 	case "freshObj":
